@@ -18,7 +18,7 @@ Accepted fragment (PblDesc.v gives it its meaning); everything else raises Trans
                · logger.<debug|info|warning|error>(<string literal>, e1, ...)
   expressions  numeric literals · string literals · None · names · np.pi · np.nan · unary minus · + - * / · e ** <int literal 1..8>
                · np.sqrt/exp/log/arctan(e) · np.power(a, b, dtype=complex).real · np.where(x > y, a, b) · psi(e) · phi(e)
-               · e is None · e is not None · e == "s" · e != "s" · not · and · or · tuple displays
+               · e is None · e is not None · e == "s" · e != "s" · not · and · or · a if c else b · tuple displays
                · np.arange(a, b, c) · np.ones(len(x)) · np.squeeze(e).item() · np.array(e)[..., np.newaxis]
                · e[<int literal>] · max(e) · min(e)
   module       psi, phi: module-level, undecorated, one plain parameter, body = simple assignments + return;
@@ -141,6 +141,8 @@ class Fun:
                 r = "(EStrEq %s %s)" % (self.expr(e.left), _str(rhs, rhs.value))
                 return r if isinstance(op, ast.Eq) else "(ENot %s)" % r
             _err(e, "comparison %s outside np.where" % type(op).__name__)
+        if isinstance(e, ast.IfExp):
+            return "(EIfExp %s %s %s)" % (self.expr(e.test), self.expr(e.body), self.expr(e.orelse))
         if isinstance(e, ast.Tuple):
             if not isinstance(e.ctx, ast.Load) or any(isinstance(x, ast.Starred) for x in e.elts):
                 _err(e, "tuple pattern / starred element")
